@@ -1,0 +1,23 @@
+//go:build verif
+// +build verif
+
+package store
+
+// Test-only exports for the /verif correspondence harness.  Compiled only with
+// -tags verif; adds nothing to the normal build.
+
+func VerifFnv1a(b []byte) uint32          { return fnv1a(b) }
+func VerifMurmur(b []byte) uint32         { return murmur(b) }
+func VerifKeyHashDefault(b []byte) uint64 { return getKeyHashDefalut(b) }
+
+// VerifCrc32 feeds the parts to the record CRC exactly as getCRC does
+// (one write per non-empty part).
+func VerifCrc32(parts ...[]byte) uint32 {
+	h := newCrc32()
+	for _, p := range parts {
+		if len(p) > 0 {
+			h.write(p)
+		}
+	}
+	return h.get()
+}
